@@ -6,6 +6,8 @@ pub const INJECT: &[(&str, &[u8])] = &[
     ("e-acute", &[0xC3, 0xA9]),
     ("u00fd-u0080", &[0xC3, 0xBD, 0xC2, 0x80]),
     ("u-ffff", &[0xEF, 0xBF, 0xBF]),
+    // U+00C3 U+0080: the shape of non-ASCII text the library's quoted-string grammar accepts
+    ("u00c3-u0080", &[0xC3, 0x83, 0xC2, 0x80]),
     ("lone-continuation", &[0x80]),
     ("dquote", &[0x22]),
     ("backslash", &[0x5C]),
